@@ -175,12 +175,15 @@ let predict (c : string) (obs : string) : string * string * bool =
       let conn_text, conn_good = (match parsed with
         | Some (_, conn, _, _, recs) ->
             (match ints_of '/' conn with
-             | Some [carrying; accepted; probes] ->
+             | Some (carrying :: accepted :: probes :: fu) when List.length fu <= 1 ->
+                 (* follow-ups of redirects (gun option redirect: true) are requests at the target as well *)
+                 let fu = (match fu with [x] -> x | _ -> 0) in
                  let nt = List.length (List.filter (fun r -> String.length r.srv > 0 && r.srv.[0] = 'T') recs) in
                  let want_probes = if tgt = "name" && not late then pools else 0 in
                  let good = probes = want_probes
                    && conn_ok ka sc.sc_enabled (nat_of_int (inst * pools)) (nat_of_int nt) (nat_of_int carrying)
-                   && conn_ok ka sc.sc_enabled (nat_of_int (inst * pools + probes)) (nat_of_int (nt + probes)) (nat_of_int accepted) in
+                   && fu >= 0
+                   && conn_ok ka sc.sc_enabled (nat_of_int (inst * pools + probes)) (nat_of_int (nt + probes + fu)) (nat_of_int accepted) in
                  ((if good then conn else "outside-conn_ok"), good)
              | _ -> ("unparsable", false))
         | None -> ("unparsable", false)) in
